@@ -24,9 +24,13 @@ def run(model, rep, tier):
     c07.r1_r2_wire(ctx, rep, R1='C12.R5', R2='C12.R5')
     r6_labels(ctx, rep)
     r7_entry_shapes(ctx, rep)
+    entry_info_is_opaque(ctx, rep, 'C12.R7')
     r8_per_object_state(ctx, rep)
     c02.accumulators_never_discarded(ctx, rep, 'C12.R9')
     c02.accumulator_roles_through_calls(ctx, rep, 'C12.R3')
+    from . import lifetime
+    rep.rule('C12.R10', "each run sees only its own inputs (rules/lifetime.py): no function of the package is memoised across runs (functools.lru_cache / cache), module-level containers that functions add to are emptied at the start of a run, no mutable class attribute is shared through instances (mutated in place or handed out without being re-bound per instance), and no option with a mutable argparse default is mutated in place after parsing -- a second run in the same process (other layer objects under the same names, other outcomes, other filters) must not inherit the first run's state")
+    lifetime.check(ctx, rep, 'C12.R10')
     rep.units['cfg'] = ctx.cfg_stats
 
 
@@ -505,3 +509,75 @@ def r8_per_object_state(ctx, rep, R='C12.R8'):
                 key='shared:%s.%s' % (ci.qualname, attr), func=ci.qualname,
                 where='%s:%s' % (ci.module.path, st.lineno))
     rep.sample('class-level mutable defaults examined: %d' % n)
+
+
+# ---------------------------------------------------------------------------------------------
+# the second component of an accumulator entry is opaque
+
+def entry_info_is_opaque(ctx, rep, R):
+    """the entries of the Runner's failures / errors lists are (test, info) pairs whose second
+    component is heterogeneous by construction: traceback text from unittest, the exc_info triple of a
+    layer failure, None for everything a layer subprocess reported and for unexpected successes.
+    Every reader may ignore it, pass it on, or test it (is None / isinstance); using it as one
+    particular type (a string method, indexing) fails for the other producers -- inside a report
+    hook, i.e. the summary is cut short and run_internal raises instead of returning the verdict"""
+    from .common import guard_literals, local_assignments, sources_of
+    m = ctx.model
+    n = 0
+    for fi in m.all_functions():
+        if fi.module.name.startswith('tests'):
+            continue
+        assigns = local_assignments(fi.node)
+        ps = [a.arg for a in fi.node.args.args]
+
+        def from_acc(e):
+            src = sources_of(e, assigns)
+            for d in src:
+                last = d.split('.')[-1]
+                if last in ('failures', 'errors') and ('runner' in d or d.startswith('self.') and
+                                                       fi.cls is not None and fi.cls.qualname == 'runner.Runner'):
+                    return True
+                if d in ps and d in ('failures', 'errors') and fi.name in ('tests_with_errors', 'tests_with_failures'):
+                    return True
+            return False
+        infos = []
+        for x in ast.walk(fi.node):
+            if isinstance(x, (ast.For, ast.comprehension)) and isinstance(x.target, ast.Tuple) and \
+                    len(x.target.elts) == 2 and isinstance(x.target.elts[1], ast.Name) and from_acc(x.iter):
+                infos.append((x.target.elts[1].id, x))
+            if isinstance(x, ast.Assign) and len(x.targets) == 1 and isinstance(x.targets[0], ast.Tuple) and \
+                    len(x.targets[0].elts) == 2 and isinstance(x.targets[0].elts[1], ast.Name) and \
+                    isinstance(x.value, ast.Subscript) and from_acc(x.value.value):
+                infos.append((x.targets[0].elts[1].id, x))
+        for name, site in infos:
+            n += 1
+            bad = []
+            for y in ast.walk(fi.node):
+                if not (isinstance(y, ast.Name) and y.id == name and isinstance(y.ctx, ast.Load)):
+                    continue
+                par = getattr(y, '_parent', None)
+                use = None
+                if isinstance(par, ast.Attribute) and par.value is y:
+                    use = 'attribute %s' % norm(par)
+                elif isinstance(par, ast.Subscript) and par.value is y:
+                    use = 'indexed %s' % norm(par)
+                elif isinstance(par, ast.BinOp):
+                    use = 'operand of %s' % norm(par)[:40]
+                elif isinstance(par, (ast.For, ast.comprehension)) and par.iter is y:
+                    use = 'iterated'
+                elif isinstance(par, ast.Starred):
+                    use = 'unpacked'
+                if use is None:
+                    continue
+                lits = guard_literals(ctx, fi, y)
+                if any(isinstance(e, ast.Call) and dotted(e.func) == 'isinstance' and e.args and
+                       dotted(e.args[0]) == name and pos for e, pos in lits):
+                    continue
+                bad.append(use)
+            rep.check(not bad, R, '%s reads (test, %s) entries without assuming a type for %s' % (fi.qualname, name, name),
+                      '%s takes the second component of a failures / errors entry for one particular type (%s); '
+                      'it is traceback text for test failures, an exc_info triple for layer failures and None '
+                      'for entries reported by a layer subprocess -- for the other producers this raises inside '
+                      'the report phase: no totals line, no verdict' % (fi.qualname, '; '.join(sorted(set(bad))[:3])),
+                      key='entry-info:%s' % fi.qualname, func=fi.qualname, where=ctx.where(fi, site if isinstance(site, ast.stmt) else fi.node))
+    rep.floor(R, n, 3, 'readers that unpack (test, info) entries of the accumulators')
